@@ -126,7 +126,7 @@ def batch_run(ctx, report, facts, config, rule="C04.FANOUT"):
     report.ob(rule, "RUN/<T as RunNow>::run_now/fetch-run", ok, detail, site=b.loc(), config=config)
 
 
-def run(ctx, report):
+def _run_rules(ctx, report):
     for config in ctx.configs:
         facts = ctx.facts(config)
         report.guard("C04.FANOUT", F.check_family, ctx, report, "C04.FANOUT", facts, config, (F.RUN,))
@@ -140,3 +140,10 @@ def run(ctx, report):
         report.guard("C04.BUILD", S.build_wiring, ctx, report, "C04.BUILD", facts, config)
         report.guard("C04.CAP", P.accept, ctx, report, "C04.CAP", facts, config, ("cap",))
     POS.check(ctx, report, "C04.FANOUT", ["partial_traversals"])
+
+
+def run(ctx, report):
+    _run_rules(ctx, report)
+    from .. import shared as _S
+    for config in ctx.configs:
+        report.guard("C04.ENCAPSULATED", _S.encapsulated, ctx, report, "C04.ENCAPSULATED", ctx.facts(config), config, "C04")
